@@ -100,7 +100,7 @@ def run(tier, replay=None):
 
 def _run(rep, tier, replay):
     wd = vlib.workdir(PID)
-    bins = vlib.cargo_build(["replay_udp", "drive_udp"])
+    bins = vlib.cargo_build(["replay_udp", "drive_udp", "shell_udp"])
     devs = vlib.open_deviations(PID)
     thorough = tier == "thorough"
     workers = 16 if thorough else 8
@@ -112,7 +112,7 @@ def _run(rep, tier, replay):
     # ---- 1. design level, no deviation: (family, inputs, time)
     # (when no deviation is open, step 3 is this very check on the same universes)
     if devs:
-        mc = [("affinity", 6, 3), ("limits", 5, 3), ("pp", 6, 3)] if thorough else [("affinity", 4, 2), ("limits", 3, 1), ("pp", 3, 2)]
+        mc = [("affinity", 5, 3), ("limits", 4, 3), ("pp", 5, 3)] if thorough else [("affinity", 4, 2), ("limits", 3, 1), ("pp", 3, 2)]
         for fam, ni, nt in mc:
             r = vlib.tlc("UdpFlows", write_cfg(wd, "mc_%s.cfg" % fam, fam, ni, nt, []), PID, workers=workers,
                          timeout=3000 if thorough else 600)
@@ -136,7 +136,7 @@ def _run(rep, tier, replay):
 
     # ---- 3. the spec as the code behaves (open deviations on): model-checked against everything the findings do
     #         not excuse, and at the same time printed transition by transition and executed on the real manager
-    gen = [("affinity", 5, 3), ("limits", 4, 2), ("pp", 5, 2)] if thorough else [("affinity", 4, 2), ("limits", 3, 2), ("pp", 4, 2)]
+    gen = [("affinity", 5, 2), ("limits", 4, 2), ("pp", 5, 2)] if thorough else [("affinity", 4, 2), ("limits", 3, 2), ("pp", 4, 2)]
     cover = {}
     total_edges = total_nodes = total_beh = total_steps = 0
     exhaustive = True
@@ -222,8 +222,11 @@ def _run(rep, tier, replay):
                                  % (where, cr["accepted"], cr["consumed"]))
         vlib.log("canary: corrupted event %d rejected (consumed %s)" % (where, cr["consumed"]))
 
+    # ---- 6. shell leg: real worker, UDP listener, mock clients and backends, lock step
+    shell_leg(rep, wd, bins, devs, seed, cover, runs=6 if thorough else 2, steps=40 if thorough else 24)
+
     rep.cov["traces_validated_against_impl"] += total_edges + total_beh
-    rep.cov["evaluations"] = total_edges + total_steps + dsum["events"]
+    rep.cov["evaluations"] += total_edges + total_steps + dsum["events"]
     rep.cov["distinct_nontrivial"] = total_nodes
     rep.cov["exhaustive"] = exhaustive
     rep.extra["transitions_replayed"] = total_edges
@@ -245,6 +248,78 @@ def _run(rep, tier, replay):
         "PROXY-protocol prefixes are only checked for presence, well-formedness and destination (C18 owns their content)",
     ]
     rep.finish()
+
+
+SHELL_CFG = """SPECIFICATION TraceSpec
+CONSTANTS
+  Deviations = %(dev)s
+  Family = "trace"
+  MaxInputs = 0
+  MaxTime = 0
+  Emit = "none"
+CONSTRAINT Track
+INVARIANTS TypeOK TableOK TimerCoherent NoImmortal UpstreamsDistinct
+PROPERTIES %(props)s
+POSTCONDITION TraceAccepted
+CHECK_DEADLOCK FALSE
+"""
+
+
+def shell_leg(rep, wd, bins, devs, seed, cover, runs, steps):
+    """A real sozu worker with a UDP listener; this process plays 3 clients and 2 backends in lock step
+    (cluster reconfiguration incl. affinity flips, cap changes, routing removal); who received what is
+    validated by TLC against Trace_UdpShell.tla. 'Nothing arrived' is only concluded after 2 s."""
+    sbin = bins["shell_udp"]
+    trace = os.path.join(wd, "shell.ndjson")
+    out = vlib.run_harness(sbin, ["--seed", str(seed), "--runs", str(runs), "--steps", str(steps), "--quiet-ms", "2000", "--flips", "1",
+                                  "--out", trace], timeout=1500)
+    summ = [o for o in out if o.get("kind") == "summary"]
+    if not summ:
+        raise vlib.ToolError("shell_udp produced no summary")
+    summ = summ[0]
+    for v in out:
+        if v.get("kind") == "violation":
+            rep.violation(v["class"], "the worker thread panicked: %s" % v["detail"].get("panic", "")[:200], v, name="shell_panic.json")
+    props = ["S_C19_Sticky", "S_C19_Isolation", "S_C19_Integrity", "S_C19_Cap", "S_C19_Teardown"]
+    for d in devs:
+        broken, modulo, _ = DEV_BREAKS[d]
+        props = [modulo.replace("P_C19", "S_C19") if p == broken.replace("P_C19", "S_C19") else p for p in props]
+    cfg = os.path.join(wd, "shell.cfg")
+    with open(cfg, "w") as f:
+        f.write(SHELL_CFG % {"dev": tla_set(devs), "props": " ".join(props)})
+    tr = vlib.tlc_trace("Trace_UdpShell", cfg, PID, trace, timeout=600)
+    rep.add_tlc(tr)
+    if not tr["accepted"]:
+        record_trace_rejection(rep, tr, trace, "shell")
+    else:
+        rep.cov["traces_validated_against_impl"] += summ["runs"]
+        # canary: a datagram observed at the other backend must be rejected
+        lines = open(trace).read().splitlines()
+        cands, seen = [], set()
+        for i, l in enumerate(lines):
+            ev = json.loads(l)
+            if ev["ev"] == "reset":
+                seen = set()
+            elif ev["ev"] == "c2b" and ev["obs"]["got"] == 1:
+                if ev["obs"]["up"] in seen:
+                    cands.append(i)          # a datagram on an already established flow
+                seen.add(ev["obs"]["up"])
+        if cands:
+            i = cands[len(cands) // 2]
+            ev = json.loads(lines[i])
+            ev["obs"]["backend"] = 3 - ev["obs"]["backend"]
+            lines[i] = json.dumps(ev, separators=(",", ":"))
+            canary = os.path.join(wd, "shell_canary.ndjson")
+            with open(canary, "w") as f:
+                f.write("\n".join(lines) + "\n")
+            cr = vlib.tlc_trace("Trace_UdpShell", cfg, PID, canary, timeout=600)
+            if cr["accepted"]:
+                raise vlib.ToolError("shell canary: a datagram moved to the other backend (event %d) was accepted" % i)
+    merge_cover(cover, {"shell:" + k: v for k, v in summ["cover"].items()})
+    rep.extra["shell_runs"] = summ["runs"]
+    rep.extra["shell_events"] = summ["events"]
+    rep.cov["evaluations"] += summ["events"]
+    vlib.log("shell leg: %d runs, %d events, accepted=%s, cover %s" % (summ["runs"], summ["events"], tr["accepted"], summ["cover"]))
 
 
 def replay_file(rep, bins, path, seed, tag):
